@@ -122,7 +122,7 @@ class Case:
              evidence and for matching known findings)
     nontrivial : whether the case counts as non-trivial for the evidence
     """
-    __slots__ = ("suite", "req", "impl", "oracle", "cls", "nontrivial", "info", "_mod")
+    __slots__ = ("suite", "req", "impl", "oracle", "cls", "nontrivial", "info", "_mod", "stateless")
 
     def __init__(self, suite, req, impl, oracle=None, cls="", nontrivial=True, info=None):
         self.suite = suite
@@ -133,6 +133,7 @@ class Case:
         self.nontrivial = nontrivial
         self.info = info
         self._mod = None
+        self.stateless = True   # set False for cases whose impl() legitimately depends on process state
 
 
 def run_driver(lines, timeout=600):
